@@ -18,7 +18,7 @@ func init() {
 		Explanation: "Static decision of the structural clauses of C11. R1 (BITS): bit-provenance analysis of the storage-index packing proves unpack(pack(list, offset)) = (list, offset) for all int32 pairs and that all 64 result cells are distinct input bits (injective). " +
 			"R2: the scanner's position grows by exactly len(bytes read), the reported index is the position before the read, the returned line is those bytes, and nobody else reads from that reader. R3: GetID, NewScanner and RetrieveRule of both list kinds use the same id field, " +
 			"and scanner and retrievers build rules through rules.NewRule with that id. R4: the string list cuts RulesText[idx:next newline], the file list seeks to the index from the start and reads one line, every read of the file being reached only under the seek's condition; the line reader returns at a newline exactly when one was found " +
-			"(index != -1, evaluated on constants). R5: duplicate list ids are rejected; retrieval selects the list by the unpacked id and passes the unpacked offset; the storage scanner packs the rule's list id with the scanner's offset and tries every scanner until one yields. The line reader of R2 is resolved by role: the method Scan gets (line, index, more) from, of the scanner or of a type of its own; position and reader are the fields it stores to and reads from.",
+			"(index != -1, evaluated on constants). R5: duplicate list ids are rejected; retrieval selects the list by the unpacked id and passes the unpacked offset; the storage scanner packs the rule's list id with the scanner's offset and tries every scanner until one yields. The line reader of R2 is resolved by role: the method Scan gets (line, index, more) from, of the scanner or of a type of its own; position and reader are the fields it stores to and reads from. R2 also: no function of the scanner's package other than the line reader consumes bytes of a buffered reader (Read*, Discard, WriteTo): bytes skipped by a constructor (a byte-order mark, a header line) would not be counted by the position.",
 		Trusted:     []string{"bufio.Reader.ReadBytes returns exactly the bytes up to and including the delimiter; os.File.Seek(io.SeekStart)"},
 		Assumptions: []string{"agreement of the block reader with the buffered line reader on every content (CRLF, 4 KiB boundaries, missing final newline) is value-level and not decided"},
 	})
